@@ -307,7 +307,13 @@ func enact(run int, sc schedule) ([]map[string]any, error) {
 		}
 		delete(waiting, a)
 		close(c.release)
-		<-c.done
+		select {
+		case <-c.done:
+		case <-time.After(500 * time.Millisecond):
+			// released, but the real call does not return: it waits for a lock that a parked actor holds.  The
+			// schedule cannot be followed any further; the rest runs freely (observed, judged by the trace).
+			return nil, false
+		}
 		return c, true
 	}
 sched:
@@ -360,7 +366,10 @@ sched:
 		for a, c := range waiting {
 			delete(waiting, a)
 			close(c.release)
-			<-c.done
+			select {
+			case <-c.done:
+			case <-time.After(2 * time.Second):
+			}
 		}
 		if !pull(50 * time.Millisecond) {
 			break
